@@ -16,4 +16,9 @@ for grp, ents in rf_gatesets.ENTRIES.items():
         if '-v' in sys.argv:
             for r in out[b.path]:
                 print('    ', rf_senses._fmt(tuple(tuple(y) if isinstance(y, list) else y for y in r)))
+for p in rf_senses.other_functions(prog):
+    se = rf_senses.senses(ctx, 'prod-all', p)
+    if se:
+        out[p] = sorted([list(x) for x in se], key=str)
+        print(p.split('::')[-1], len(out[p]))
 json.dump(out, open(rf_senses.TABLE_FILE, 'w'), indent=1)
